@@ -50,9 +50,11 @@ theorem Flt.ofInt_exact (i : Int) (h : i.natAbs < 2 ^ 53) : Flt.ofInt i = .fin i
 
 theorem ifaceEq_ok (d : Dev) (h : d.uncmp = false) (l r : Val) : ∃ b, ifaceEq d l r = .ok b := by
   cases l <;> cases r <;> simp [ifaceEq, h]
+  case ext.ext a b => by_cases h1 : a.ty = b.ty <;> cases h2 : a.cmp <;> simp [h1] <;> exact (Decidable.em _).symm
 
 theorem ifaceEq_fixed (l r : Val) : ifaceEq Dev.fixed l r = .ok (Spec.same l r) := by
   cases l <;> cases r <;> simp [ifaceEq, Spec.same, Dev.fixed]
+  case ext.ext a b => by_cases h1 : a.ty = b.ty <;> cases h2 : a.cmp <;> simp [h1, h2, Spec.sameExt]
 
 theorem inLoop_fixed (l : Val) (xs : List Val) : inLoop Dev.fixed l xs = .ok (xs.any (Spec.same l)) := by
   induction xs with
@@ -78,9 +80,11 @@ theorem evalOp_fixed_eq_spec (rx : RxEngine) (o : Op) (l r : Val) :
     evalOp Dev.fixed rx o l r = .ok (Spec.evalOp rx o l r) := by
   cases o
   case eq =>
-    cases l <;> cases r <;> simp [evalOp, ifaceEq, Spec.evalOp, Spec.eqv, Spec.num?, Dev.fixed, Dev.toF] <;> (split <;> simp_all)
+    cases l <;> cases r <;> simp [evalOp, ifaceEq, Spec.evalOp, Spec.eqv, Spec.num?, Dev.fixed, Dev.toF] <;> try (split <;> simp_all)
+    case ext.ext a b => by_cases h1 : a.ty = b.ty <;> cases h2 : a.cmp <;> by_cases h3 : a.id = b.id <;> simp_all [Spec.sameExt]
   case neq =>
-    cases l <;> cases r <;> simp [evalOp, ifaceEq, Spec.evalOp, Spec.eqv, Spec.num?, Dev.fixed, Dev.toF] <;> (split <;> simp_all)
+    cases l <;> cases r <;> simp [evalOp, ifaceEq, Spec.evalOp, Spec.eqv, Spec.num?, Dev.fixed, Dev.toF] <;> try (split <;> simp_all)
+    case ext.ext a b => by_cases h1 : a.ty = b.ty <;> cases h2 : a.cmp <;> by_cases h3 : a.id = b.id <;> simp_all [Spec.sameExt]
   case lt => cases l <;> cases r <;> simp [evalOp, ordering, Spec.evalOp, Spec.ltv, Spec.num?, Dev.fixed, Dev.toF]
   case gt => cases l <;> cases r <;> simp [evalOp, ordering, Spec.evalOp, Spec.ltv, Spec.num?, Dev.fixed, Dev.toF]
   case lte => cases l <;> cases r <;> simp [evalOp, ordering, Spec.evalOp, Spec.lev, Spec.num?, Dev.fixed, Dev.toF]
@@ -108,10 +112,17 @@ theorem evalOp_fixed_eq_spec (rx : RxEngine) (o : Op) (l r : Val) :
 
 def isArr : Val → Bool | .arr _ => true | _ => false
 def isObj : Val → Bool | .obj _ => true | _ => false
-def isContainer (v : Val) : Bool := isArr v || isObj v
+/-- a typed Go value of an uncomparable type (`[]int`, `map[string]int`, `gen.Array`, a struct with a slice field) -/
+def isUExt : Val → Bool | .ext e => !e.cmp | _ => false
+def isContainer (v : Val) : Bool := isArr v || isObj v || isUExt v
+
+/-- two typed values of the same uncomparable type -/
+def sameUExt : Val → Val → Bool
+  | .ext a, .ext b => a.ty == b.ty && !a.cmp
+  | _, _ => false
 
 /-- both operands hold the same uncomparable Go type -/
-def sameContainer (l r : Val) : Bool := (isArr l && isArr r) || (isObj l && isObj r)
+def sameContainer (l r : Val) : Bool := (isArr l && isArr r) || (isObj l && isObj r) || sameUExt l r
 
 /-- the operand pairs on which an operator `case` executes a Go `==` between two slices or two maps -/
 def uncomparablePair (o : Op) (l r : Val) : Bool :=
@@ -124,18 +135,21 @@ def uncomparablePair (o : Op) (l r : Val) : Bool :=
 
 theorem ifaceEq_error_iff (d : Dev) (l r : Val) :
     (∃ f, ifaceEq d l r = .error f) ↔ (d.uncmp = true ∧ sameContainer l r = true) := by
-  cases l <;> cases r <;> cases h : d.uncmp <;> simp [ifaceEq, sameContainer, isArr, isObj, h]
+  cases l <;> cases r <;> cases h : d.uncmp <;> simp [ifaceEq, sameContainer, isArr, isObj, sameUExt, h]
+  all_goals (rename_i a b; by_cases h1 : a.ty = b.ty <;> cases h2 : a.cmp <;> simp [h1])
 
 theorem ifaceEq_container_false (d : Dev) (l r : Val) (hl : isContainer l = true) :
     ifaceEq d l r ≠ .ok true := by
-  cases l <;> cases r <;> cases h : d.uncmp <;> simp_all [ifaceEq, isContainer, isArr, isObj]
+  cases l <;> cases r <;> cases h : d.uncmp <;> simp_all [ifaceEq, isContainer, isArr, isObj, isUExt]
+  all_goals (rename_i a b; by_cases h1 : a.ty = b.ty <;> simp [h1])
 
 theorem ifaceEq_noncontainer_ok (d : Dev) (l r : Val) (hl : isContainer l = false) :
     ∃ b, ifaceEq d l r = .ok b := by
-  cases l <;> cases r <;> simp_all [ifaceEq, isContainer, isArr, isObj]
+  cases l <;> cases r <;> simp_all [ifaceEq, isContainer, isArr, isObj, isUExt]
+  case ext.ext a b => by_cases h1 : a.ty = b.ty <;> simp [h1] <;> exact (Decidable.em _).symm
 
 theorem sameContainer_noncontainer (l r : Val) (hl : isContainer l = false) : sameContainer l r = false := by
-  cases l <;> simp_all [sameContainer, isContainer, isArr, isObj]
+  cases l <;> cases r <;> simp_all [sameContainer, isContainer, isArr, isObj, isUExt, sameUExt]
 
 theorem inLoop_error_iff (d : Dev) (l : Val) (xs : List Val) :
     (∃ f, inLoop d l xs = .error f) ↔ (d.uncmp = true ∧ xs.any (sameContainer l) = true) := by
